@@ -376,6 +376,11 @@ def finish(ctx, level="proof", checker_cmd=None):
         for k, nm, d in ctx.broken[:10]:
             ctx.log("broken:", k, nm, "--", d.splitlines()[0] if d else "")
         nviol += 1
+    # every listed finding of this property is named on every run; one that shows only under a rare schedule (F23: about one
+    # racing run in 400) is marked when this run's sample did not meet it
+    for k in known:
+        if k["id"] not in seen_known:
+            lines.append("KNOWN-FINDING: property=%s %s [%s] (listed in known_findings.json; not met by this run's sample)" % (ctx.prop, k["what"], k["id"]))
     cov = dict(ctx.cov)
     cov["obligations"] = len(ctx.obligations)
     cov["discharged"] = len(ctx.discharged)
@@ -385,6 +390,7 @@ def finish(ctx, level="proof", checker_cmd=None):
     cov["trusted_base"] = TRUSTED_BASE
     cov["no_longer_checks"] = [{"kind": k, "name": nm, "detail": d[:400]} for k, nm, d in ctx.broken]
     cov["known_findings_reproduced"] = sorted(seen_known)
+    cov["known_findings_listed"] = sorted(k["id"] for k in known)
     cov["notes"] = ctx.notes
     ev = {"property_id": ctx.prop, "tier": ctx.tier, "seed": ctx.seed, "level": level, "coverage": cov,
           "assumptions": ctx.assumptions, "wall_s": round(time.time() - ctx.t0, 2), "violations": nviol}
